@@ -45,12 +45,18 @@ def generate(src):
                                    And(0 <= g['pos'](s_, t_), g['pos'](s_, t_) < g['n'], g['os'][g['pos'](s_, t_)] == s_, g['ot'][g['pos'](s_, t_)] == t_)))]   # every due schedule spawned
     def havoc(st):
         t = next(_c); setG(st, n=Int(f'n{t}'), os=Const(f'os{t}', I2I), ot=Const(f'ot{t}', I2I), od=Const(f'od{t}', ArraySort(IntSort(), Val)), pos=Function(f'pos{t}', IntSort(), IntSort(), IntSort()))
+        g_ = st.ghost; nt_ = fresh('t_us', IntSort()); le_ = fresh('t_eval', IntSort()); st.pc += [nt_ >= g_['last_now'], le_ >= g_['last_eval'], le_ <= nt_]; setG(st, last_now=nt_, last_eval=le_)          # time passes inside the loop
     def check(st, cs, label):
         for n_, c in enumerate(cs): oblige(st, f"{label}/{n_}", c)
-    def h_get_all(ex, st, e, recv, args, kw, k, K): return k(st, Tok(lambda s, k2, K2: k2(s, 'SCHEDULES')))       # contract of get_all_schedules: total, one list per source
+    def tick(s):          # time passes (listing the sources / evaluating a schedule takes time): a later clock value, remembered as the last evaluation instant
+        g = s.ghost; tt = fresh('t_us', IntSort()); s.pc.append(tt >= g['last_now']); setG(s, last_now=tt, last_eval=tt)
+    def h_get_all(ex, st, e, recv, args, kw, k, K):
+        def eff(s, k2, K2): tick(s); return k2(s, 'SCHEDULES')
+        return k(st, Tok(eff))       # contract of get_all_schedules: total, one list per source; awaiting it takes time
     def h_items(ex, st, e, recv, args, kw, k, K): return k(st, 'ITEMS')
     def h_get_task_delay(ex, st, e, recv, args, kw, k, K):
         si, ti = st.env['__si'], st.env['__ti']
+        tick(st)          # get_task_delay reads the clock itself: the schedule is evaluated against this instant
         ok = st.fork(); ok.pc.append(Not(raises_ve(si, ti)))
         if ex.feasible(ok): k(ok, delay(si, ti))
         f = st.fork(); f.pc.append(raises_ve(si, ti))
@@ -114,7 +120,7 @@ def generate(src):
              'datetime.now': h_now, 'timedelta': h_timedelta, 'asyncio.sleep': h_sleep, '@for': h_for})
     st = State(); st.env = {'scheduler': fresh('scheduler'), 'loop': fresh('loop'), 'running_schedules': fresh('running')}
     st.pc += [NS >= 0]; st.facts.append(ForAll([s_], ntasks(s_) >= 0))
-    st.ghost = dict(n=IntVal(0), os=K(IntSort(), IntVal(0)), ot=K(IntSort(), IntVal(0)), od=K(IntSort(), Val.none), pos=Function('pos0', IntSort(), IntSort(), IntSort()), last_now=IntVal(0), reads=[], sleeps=0, slept=None)
+    st.ghost = dict(n=IntVal(0), os=K(IntSort(), IntVal(0)), ot=K(IntSort(), IntVal(0)), od=K(IntSort(), Val.none), pos=Function('pos0', IntSort(), IntSort(), IntSort()), last_now=IntVal(0), last_eval=IntVal(0), reads=[], sleeps=0, slept=None)
     exits = collections.Counter()
     def end_iter(s):
         exits['iteration-end'] += 1; g = s.ghost
@@ -123,6 +129,8 @@ def generate(src):
         n1, n2 = g['reads'][0], g['reads'][1]
         oblige(s, "loop/post: two clock reads, second not earlier", BoolVal(len(g['reads']) == 2))
         oblige(s, "loop/post: sleep argument == next minute boundary after read 1 − read 2  [C15]", g['slept'] == (n1 / (60 * US)) * (60 * US) + 60 * US - n2)
+        oblige(s, "loop/post: the minute boundary is taken from a clock read made AFTER the sources were listed and every schedule of this poll was evaluated (so the next poll starts in a later minute than any evaluation of this one - no second poll within the same minute)  [C15]",
+               n1 >= g['last_eval'])
     def on_exc(s, x): exits['iteration-raise'] += 1; oblige(s, "loop/raises: nothing escapes an iteration (fault isolation)  [C15]", BoolVal(False))
     ex.block(while_node.body, st, end_iter, {'exc': on_exc, 'ret': lambda s, v: None})
     src.note_paths('::run_scheduler_loop', sum(exits.values()))
